@@ -514,3 +514,23 @@ func VH_C19_Chain() {
 	symAssert(o1 == expect, "equation-holds-in-a-chain")
 	symAssert(o2 == expect, "equation-holds-on-the-second-render")
 }
+
+// VH_C19_ReverseRunes: strings of up to N characters from {a, é, combining acute U+0301, combining
+// diaeresis U+0308, a 4-byte rune, ZWJ U+200D, an invalid byte}: reverse puts the characters in the
+// opposite order (whatever they are: combining marks and joiners are characters like any other), keeps
+// the length, and applied twice gives the input back.
+func VH_C19_ReverseRunes() {
+	n := symChoice(symParam("N", 3) + 1)
+	runes := []string{"a", "\xc3\xa9", "\xcc\x81", "\xcc\x88", "\xf0\x9d\x84\x9e", "\xe2\x80\x8d", "z"}
+	rs := make([]string, n)
+	s, rev := "", ""
+	for i := range rs {
+		rs[i] = runes[symChoice(len(runes))]
+		s += rs[i]
+		rev = rs[i] + rev
+	}
+	out, err := vhR("{{ s|reverse|raw }}|{{ s|reverse|reverse|raw }}|{{ s|reverse|length }}|{{ s|length }}", map[string]interface{}{"s": s})
+	symCover("rendered")
+	symAssert(err == nil, "no-error")
+	symAssert(out == rev+"|"+s+"|"+strconv.Itoa(n)+"|"+strconv.Itoa(n), "reverse-of-characters")
+}
